@@ -236,7 +236,9 @@ def call_builtin(ex, name, args, kw, st, where, env):
         if isinstance(x, Sym) and isinstance(x.ty, SeqTy):
             t = SetTy(x.ty.elem)
             k = z3.Const(fresh_name("k"), x.ty.elem.sort)
-            yield Sym(t, z3.Lambda([k], z3.Contains(x.e, z3.Unit(k)))), st
+            # membership through the carrier M(seq, .) (= `occurs at some index`: both directions asserted here), which
+            # the sequence models (sorted, filter, enumeration ...) also speak about
+            yield Sym(t, z3.Lambda([k], seq_mem_z3(x.e, k))), st.assume(mem_all_indices(x.e), mem_has_position(x.e, x.ty.elem.sort))
             return
         if isinstance(x, MapView) and x.kind == "keys":
             m = x.coll
